@@ -125,7 +125,7 @@ theorem accepted_passed_every_stage (store : Store) (W : World) (fuel : Nat) (cf
   | error _ => simp [h1] at h
   | ok tr =>
   simp only [h1] at h
-  cases h2 : procInclude W fuel [] Kind.trace tr with
+  cases h2 : procIncludeChecked store W fuel [] Kind.trace tr with
   | error _ => simp [h2] at h
   | ok tr1 =>
   simp only [h2] at h
